@@ -34,7 +34,7 @@ from sympy.core.relational import Relational
 
 from ..core import AnalysisError, Report
 from ..fx import ALL, Closure, IdxArr, Interp, Model, RaisedInCode, SymArray, Unsupported, Vec, make_grid_model, to_py
-from ..index import get_index
+from ..index import dotted, get_index
 from ..kernels import backend_model, read_config_defaults, std_overrides
 
 GRIDS = "pde/backends/numba/grids.py"
@@ -1410,6 +1410,55 @@ def check_plumbing(rep: Report, ix, cfg) -> None:
 # =============================================================================
 # driver
 # =============================================================================
+ARRAY_BUILDERS = {"transpose", "array", "asarray", "stack", "vstack", "hstack", "column_stack", "concatenate", "moveaxis", "swapaxes", "zip", "nonzero", "where", "argwhere"}
+
+
+def insert_accumulation_scan(rep: Report, ix) -> bool:
+    """The support cells of an inserted point need not be distinct (both support points of a periodic axis with one cell
+    wrap to the same cell).  `a[idx] += v` with an index *array* is a buffered read-modify-write: repeated entries receive
+    only the last contribution (numpy documents this; np.add.at is the accumulating form).  Rule: in DataFieldBase.insert
+    every augmented store into the field data addresses one cell (index built from scalars of the loop over the support
+    cells); an index that expands a name built by transpose/array/zip/... over the list of cells is a violation."""
+    fi = ix.func(DFB, "DataFieldBase.insert")
+    defs: dict[str, list[ast.expr]] = {}
+    for st in ast.walk(fi.node):
+        if isinstance(st, ast.Assign) and len(st.targets) == 1 and isinstance(st.targets[0], ast.Name):
+            defs.setdefault(st.targets[0].id, []).append(st.value)
+
+    def multi_cell(e: ast.AST, depth: int = 0) -> str | None:
+        for x in ast.walk(e):
+            if isinstance(x, ast.Call) and dotted(x.func).split(".")[-1] in ARRAY_BUILDERS:
+                return ast.unparse(x)[:60]
+            if isinstance(x, ast.Name) and depth < 4:
+                for d in defs.get(x.id, []):
+                    r = multi_cell(d, depth + 1)
+                    if r:
+                        return r
+        return None
+
+    found = False
+    n = 0
+    for st in ast.walk(fi.node):
+        if isinstance(st, ast.AugAssign) and isinstance(st.target, ast.Subscript):
+            base = st.target.value
+            if not (isinstance(base, ast.Attribute) and base.attr in ("data", "_data_full", "_data_valid")):
+                continue
+            n += 1
+            why = multi_cell(st.target.slice)
+            rep.oblige(f"python-insert: update `{ast.unparse(st.target)[:50]}` addresses one cell per statement execution", why is None, why)
+            if why:
+                found = True
+                rep.violation(
+                    "C16.insert-accumulates",
+                    f"{fi.ref}::fancy-indexed-update",
+                    f"`{ast.unparse(st)[:90]}` updates all support cells through an index array (built by `{why}`): with repeated cells (periodic axis with a single cell: both support "
+                    "points wrap to the same cell) a buffered `+=` applies only the last contribution, so less than `amount` is inserted; use one update per cell or np.add.at",
+                    line=st.lineno,
+                )
+    rep.floor("augmented stores into the field data in DataFieldBase.insert", n, 1)
+    return found
+
+
 def check(tier: str) -> Report:
     rep = Report(
         "C16",
@@ -1473,6 +1522,9 @@ def check(tier: str) -> Report:
     rows = [(1, [False]), (1, [True]), (2, [False, False]), (2, [False, True])]
     if thorough:
         rows += [(2, [True, False]), (2, [True, True])]
+    if insert_accumulation_scan(rep, ix):
+        rep.note("DataFieldBase.insert is already in violation (multi-cell fancy-indexed update); its interpretation is skipped")
+        rows = []
     for n, per in rows:
         py = check_py_insert(rep, ix, cfg, n, per)
         check_agreement(rep, ix, cfg, n, per, tables, inserts, py)
